@@ -56,3 +56,79 @@ for (a, b, c) in ((8, 17, 9), (80, 100, 80), (16, 8, 24), (7, 8, 9), (24, 25, 40
          {"C18": Q if a in (8, 80) and c in (9, 80) else T},
          desc="never-customised set, widths %d -> %d -> %d, equals Tabs::new(%d)" % (a, b, c, c),
          bounds="concrete widths")
+
+# ----------------------------------------------------------------------------- parser (C03, C20, C01, C08, C19)
+CLEAR_SPEC = [("Param::clear", "Param::kv_clear_spec")]
+FEED_STUBS = CLEAR_SPEC + [("Parser::csi_dispatch", "Parser::kv_no_csi_dispatch")]
+NO_LISTS = [("ansi_mode", "kv_no_ansi_mode"), ("dec_mode", "kv_no_dec_mode"),
+            ("<SgrOps<'_> as core::iter::Iterator>::next", "SgrOps::kv_no_next")]
+REC_STUBS = [("Parser::" + h, "Parser::kv_rec_" + h) for h in
+             ("clear", "collect", "param", "execute", "esc_dispatch", "csi_dispatch", "put", "osc_put")]
+inst("p_trans", "parser", "t_p_trans()", 8, {"C03": Q, "C20": Q, "C01": Q}, stubs=REC_STUBS,
+     desc="Parser::feed: next state and kind of action vs the reference table, state and char both symbolic (14 x 1,112,064 entries), "
+          "the eight action helpers replaced by recorders",
+     bounds="all states, all Unicode scalar values, any intermediate")
+inst("p_param_kernel", "parser", "t_p_param_kernel()", 8, {"C03": Q, "C01": Q},
+     desc="Param::add_digit / add_part from any Param: decimal accumulation mod 2^16 without overflow, saturation at 6 sub-parameters",
+     bounds="all u16 values, all digits")
+inst("p_param_clear", "parser", "t_p_param_clear()", 8, {"C03": Q},
+     desc="Param::clear from any Param satisfying zero-beyond", bounds="all Params")
+inst("p_collect", "parser", "t_p_collect()", 8, {"C03": Q, "C20": Q},
+     desc="collect / put / osc_put from any parser", bounds="all chars")
+for cp in (0, 1, 5, 31):
+    u = max(cp + 3, 9)
+    inst("p_param__cp%d" % cp, "parser", "t_p_param(%d)" % cp, u, {"C03": Q if cp in (1, 31) else T, "C01": Q if cp == 31 else T},
+         desc="Parser::param(c), c in '0'..=';', from any InvP parser with cur_param=%d: exactly one sub-parameter / index changes, saturation at 32 parameters" % cp,
+         bounds="cur_param=%d, all values" % cp)
+    inst("p_total__cp%d" % cp, "parser", "t_p_total(%d)" % cp, max(cp + 3, 34), {"C01": Q if cp in (1, 31) else T, "C03": T},
+         desc="Parser::feed with the real helpers from any InvP parser (cur_param=%d), any state, any char except CSI dispatch finals: no panic, InvP preserved" % cp,
+         bounds="cur_param=%d" % cp, stubs=FEED_STUBS)
+for cp in (0, 2, 31):
+    u = max(cp + 3, 9)
+    inst("p_clear__cp%d" % cp, "parser", "t_p_clear(%d)" % cp, u, {"C03": Q if cp in (2, 31) else T}, stubs=CLEAR_SPEC if cp == 31 else (),
+         desc="Parser::clear from any InvP parser with cur_param=%d is a full reset of all 32 parameters" % cp, bounds="cur_param=%d" % cp)
+    inst("p_mem__cp%d" % cp, "parser", "t_p_mem(%d)" % cp, u, {"C03": Q if cp in (2, 31) else T},
+         desc="feed(ESC | 0x9b | 0x90) from any InvP parser with cur_param=%d leaves all 32 params default (memoryless dispatch)" % cp,
+         bounds="cur_param=%d" % cp, stubs=FEED_STUBS)
+    inst("p_ris__cp%d" % cp, "parser", "t_p_ris(%d)" % cp, u, {"C19": Q if cp == 2 else T},
+         desc="ESC c from any parser state returns Ris and leaves a parser equal to Parser::new()", bounds="cur_param=%d" % cp, stubs=CLEAR_SPEC)
+    inst("p_csi_scalar__cp%d" % cp, "parser", "t_p_csi_scalar(%d)" % cp, u, {"C03": Q if cp == 2 else T, "C20": Q if cp == 2 else T, "C01": T},
+         desc="csi_dispatch vs reference for every final, every intermediate / private marker, all parameter values (scalar functions)",
+         bounds="cur_param=%d, all chars, all u16 parameters" % cp, stubs=NO_LISTS)
+for cp in (0, 2):
+    inst("p_fe__cp%d" % cp, "parser", "t_p_fe(%d)" % cp, 34, {"C03": T}, mem=20, timeout=1500,
+         desc="ESC Fe (0x40..=0x5f) == C1 (0x80..=0x9f): same function, same state, same cleared params, from any parser", bounds="cur_param=%d" % cp, stubs=FEED_STUBS)
+    inst("p_strings__cp%d" % cp, "parser", "t_p_strings(%d)" % cp, 34, {"C20": Q if cp == 2 else T, "C03": T},
+         desc="OSC / DCS / SOS-PM-APC payload yields no function and stays in the string; ST, ESC \\\\ and BEL (OSC) end it in ground", bounds="cur_param=%d, all payload chars" % cp, stubs=FEED_STUBS)
+inst("p_string_intro", "parser", "t_p_string_intro()", 34, {"C20": Q, "C03": T},
+     desc="the five string kinds are entered by 7- and 8-bit introducers from any state", bounds="all states", stubs=FEED_STUBS)
+inst("p_exec", "parser", "t_p_exec()", 8, {"C03": Q, "C20": Q},
+     desc="execute(c) vs reference for every char", bounds="all chars")
+inst("p_esc", "parser", "t_p_esc()", 8, {"C03": Q, "C20": Q},
+     desc="esc_dispatch vs reference for every final and intermediate", bounds="all chars")
+for cp in (0, 1, 3, 7):
+    for private, set_, nm in ((False, True, "sm"), (False, False, "rm"), (True, True, "decset"), (True, False, "decrst")):
+        quick = (cp == 1) or (cp == 3 and nm == "decset")
+        inst("p_csi_modes__%s_cp%d" % (nm, cp), "parser", "t_p_csi_modes(%d, %s, %s)" % (cp, str(private).lower(), str(set_).lower()),
+             max(cp + 3, 9), {"C03": Q if quick else T, "C01": T},
+             desc="CSI %sh/l with %d parameters: list of recognised modes in order, unknown dropped" % ("? " if private else "", cp + 1),
+             bounds="%d parameters, all u16 values" % (cp + 1), mem=8)
+for k in (0, 1, 2):
+    inst("p_sgr__k%d" % k, "parser", "t_p_sgr(%d)" % k, k + 3, {"C08": Q if k < 2 else T, "C03": T, "C01": Q if k == 1 else T},
+         desc="SgrOps over %d parameters with any sub-parameters vs the statement's decoder (';' and ':' colour forms, unknown codes skipped)" % k,
+         bounds="%d parameters, <= 6 sub-parameters each, all u16 values" % k, mem=10,
+         optional_covers=["38;5;n list form", "38;2;r;g;b list form", "operation after an unknown code"])
+
+inst("p_fe_table", "parser", "t_p_fe_table()", 4, {"C03": Q},
+     desc="reference-table lemma: (Escape, Fe) and (any state, Fe+0x40) agree in next state and action kind; with p_trans and p_esc this is the ESC Fe == C1 clause",
+     bounds="all states, all 32 Fe finals")
+inst("p_sgr__k3_single", "parser", "t_p_sgr_shape(3, [0,0,0,0,0,0])", 6, {"C08": T, "C03": T},
+     desc="SgrOps one-step lemma over 3 single-valued parameters (38;5;n list form and neighbours), all values symbolic",
+     bounds="3 parameters", mem=12, timeout=1500,
+     optional_covers=["38:2::r:g:b sub-parameter form", "38:5:n sub-parameter form", "38;5;n list form", "38;2;r;g;b list form", "operation after an unknown code"])
+for skips in (0, 1, 2):
+    inst("p_sgr_lead__s%d" % skips, "parser", "t_p_sgr_lead(6, %d)" % skips, skips + 2, {"C08": Q if skips < 2 else T, "C03": Q if skips == 0 else T, "C01": T},
+         desc="SgrOps::next over 6 parameters: %d unknown single-valued parameters, then any well-formed operation in any spelling "
+              "(';' and ':' colour forms); result and consumed count; loop bound %d proved by the unwinding assertion" % (skips, skips + 1),
+         bounds="6 parameters with <= 6 sub-parameters each, all u16 values", mem=10,
+         optional_covers=["38;2;r;g;b list form"] if skips == 2 else [])
